@@ -979,4 +979,49 @@ theorem indexByte_lt (s : Bytes) (c i : Nat) (h : indexByte s c = some i) : i < 
       obtain ⟨j, hj, rfl⟩ := h
       have := ih j hj; simp; omega
 
+/-! ### malformed bracket keys -/
+
+theorem squareBracketsAux_none_iff (k : Bytes) (n : Nat) :
+    squareBracketsAux k n = none ↔ balancedAux k n = false := by
+  induction k generalizing n with
+  | nil =>
+    simp only [squareBracketsAux, balancedAux]
+    by_cases h : n = 0 <;> simp [h]
+  | cons c cs ih =>
+    simp only [squareBracketsAux, balancedAux]
+    by_cases h91 : (c == 91) = true
+    · simp only [h91, if_true, Option.map_eq_none_iff]
+      exact ih (n + 1)
+    · by_cases h93 : (c == 93) = true
+      · simp only [h91, Bool.false_eq_true, if_false, h93, if_true]
+        by_cases hn : (n == 0) = true
+        · simp [hn]
+        · simp only [hn, Bool.false_eq_true, if_false]
+          exact ih (n - 1)
+      · simp only [h91, Bool.false_eq_true, if_false, h93, Option.map_eq_none_iff]
+        exact ih n
+
+theorem collect_malformed (sliceKey : Bytes → Bool) (split : Bool) (pairs : List (Bytes × Bytes))
+    (d : List (Bytes × List Bytes)) (h : pairs.any (fun kv => malformedKey kv.1) = true) :
+    collect sliceKey split true pairs d = none := by
+  induction pairs generalizing d with
+  | nil => simp at h
+  | cons kv rest ih =>
+    obtain ⟨k, v⟩ := kv
+    simp only [List.any_cons, Bool.or_eq_true] at h
+    simp only [collect]
+    by_cases hk : malformedKey k = true
+    · unfold malformedKey at hk
+      simp only [Bool.and_eq_true, Bool.not_eq_true'] at hk
+      have : parseParamSquareBrackets k = none := (squareBracketsAux_none_iff k 0).mpr hk.2
+      have hc : k.contains 91 = true := hk.1
+      simp only [formatBindData, hc, Bool.and_self, if_true, this]
+    · have hr : rest.any (fun kv => malformedKey kv.1) = true := by
+        rcases h with h | h
+        · exact absurd h hk
+        · exact h
+      cases formatBindData sliceKey split true d k v with
+      | none => rfl
+      | some d' => exact ih d' hr
+
 end C11
